@@ -14,12 +14,15 @@ MODEL_SITES = {"5": "activate: data_ptr load", "10": "bit_set set_bit load", "11
 
 
 def build_explorer():
+    """ocaml/c05/explore.ml (BFS over all schedules of the extracted model) -> build/c05explore/explore"""
     d = os.path.join(VERIF, "ocaml", "c05")
-    exe = os.path.join(d, "explore")
+    bd = os.path.join(vlib.BUILD, "c05explore")
+    os.makedirs(bd, exist_ok=True)
+    exe = os.path.join(bd, "explore")
     srcs = [os.path.join(d, x) for x in ("model.mli", "model.ml", "explore.ml")]
     if os.path.exists(exe) and all(os.path.getmtime(exe) >= os.path.getmtime(s) for s in srcs):
         return True, exe
-    rc, out = vlib.sh("mkdir -p xb && cp model.mli model.ml explore.ml xb/ && cd xb && ocamlfind ocamlopt -w -a -package str model.mli model.ml explore.ml -linkpkg -o ../explore", cwd=d, timeout=600)
+    rc, out = vlib.sh("cp %s %s/ && cd %s && ocamlfind ocamlopt -w -a -package str model.mli model.ml explore.ml -linkpkg -o explore" % (" ".join(srcs), bd, bd), timeout=600)
     return rc == 0, exe if rc == 0 else out[-2000:]
 
 
@@ -36,7 +39,7 @@ def run(ctx):
     exe = os.path.join(tdir, "c05")
     driver = os.path.join(VERIF, "ocaml", "c05", "driver")
     bound = 3 if ctx.thorough() else 2
-    maxex = 1500 if ctx.thorough() else 100
+    maxex = 600 if ctx.thorough() else 100
     nsh = 32
     jobs = [("wit", [exe, "wit"])]
     for i in range(nsh):
@@ -91,7 +94,7 @@ def run(ctx):
                        "first_divergence": line, "execution": hist, "harness_cmd": cmd, "other_divergences": [m[2] for m in model_mm[1:6]]}, no_input=True)
     # coverage of the model's access sites by the compared traces (counted by the driver), source lines from the witness job
     sites = {}
-    rc, out = vlib.sh(" ".join(jobs[0][1]) + " 2>/dev/null | " + driver + " | grep ^SITE", timeout=600)
+    rc, out = vlib.sh("(" + " ".join(jobs[0][1]) + "; VERIF_NO_XLINE=1 " + exe + " one bitset 10 inf bdt 0,9 0 0,1,1,1,1,1,1) 2>/dev/null | " + driver + " | grep ^SITE", timeout=600)
     for l in out.split("\n"):
         p = l.split()
         if len(p) == 6 and p[0] == "SITE":
